@@ -12,8 +12,11 @@ namespace AasVerif.CachePickle
 structure PickleHook where
   cls : Text
   popped : List Text                 -- state.pop("<attr>", None) in __getstate__, in order
-  recomputed : List (Text × Text)    -- setattr(self, "<attr>", <X>.<fn>(…)) in __setstate__, in order
-  assigned : List (Text × Text)      -- self.<attr> = <X>.<fn>(…) anywhere else in the class (constructor/setters)
+  -- A recomputation is named `<fn><-<src>`: the `_compute_*` function AND the attribute of `self` it is fed with
+  -- (`self.<src>` directly, or the parameter the same function stores as `self.<src>`).  The same function fed with
+  -- another list (seeded change C23-1: `_compute_descendant_id_set(self._concrete_descendants)`) is a different name.
+  recomputed : List (Text × Text)    -- setattr(self, "<attr>", <X>.<fn>(self.<src>)) in __setstate__, in order
+  assigned : List (Text × Text)      -- self.<attr> = <X>.<fn>(<src>) anywhere else in the class (constructor/setters)
   idSetFields : List Text            -- every attribute named *_id_set assigned in the class
   deriving Repr
 
